@@ -248,10 +248,26 @@ func oracleC18(ctx *harness.Ctx, cs *harness.Case) (ds []harness.Discrepancy) {
 				fmt.Sprintf("%s(%s) gave a different result in phase %q: first %s, then %s", calls[i].entry, q(trunc(calls[i].src, 80)), phase, trunc(ref[i], 160), trunc(got, 160)))
 		}
 	}
-	// (i) another order (rotation + reversal), (ii) repeated
+	// (i) other orders: rotation + reversal, and a pseudo-random permutation derived from `rot` (what a call finds in any
+	// shared state depends on its predecessors - several different predecessor sets per call)
 	for k := range calls {
 		i := (len(calls) - 1 - k + rot) % len(calls)
 		check("reordered", i, c18Result(calls[i].entry, calls[i].src))
+	}
+	for round := 0; round < 1 && len(ds) == 0; round++ {
+		perm := make([]int, len(calls))
+		for i := range perm {
+			perm[i] = i
+		}
+		x := uint64(rot)*2654435761 + uint64(round)*40503 + 12345
+		for i := len(perm) - 1; i > 0; i-- {
+			x = x*6364136223846793005 + 1442695040888963407
+			j := int((x >> 33) % uint64(i+1))
+			perm[i], perm[j] = perm[j], perm[i]
+		}
+		for _, i := range perm {
+			check("reordered", i, c18Result(calls[i].entry, calls[i].src))
+		}
 	}
 	// (iv-a) retention: the objects returned by the first run (trees, error lists with their positions and excerpts), rendered
 	// again after all the later calls, must still say what they said - a later parse must not reach into an earlier result
@@ -335,7 +351,7 @@ func runC18(ctx *harness.Ctx) {
 		ctx.NonTrivial(harness.Hash(cs.Input))
 		ctx.Check(t, cs, oracleC18(ctx, cs))
 	})
-	ctx.Rapid("batches", ctx.Pick(65, 2500), func(t *rapid.T) {
+	ctx.Rapid("batches", ctx.Pick(50, 2500), func(t *rapid.T) {
 		n := rapid.IntRange(8, 48).Draw(t, "n")
 		var inputs []string
 		withErr := 0
@@ -404,7 +420,9 @@ func runC18(ctx *harness.Ctx) {
 				tb = strings.Replace(tb, "1 +\n", "1 + ", 1)
 			}
 			if len(ta) == len(tb) {
-				inputs = append(inputs, ta, tb, "SELECT 1 +\n"+ta[:len(ta)/2], tb)
+				// the spacer is long too, but of another length: state keyed by (path, length) is replaced by it, so that in some
+				// orders a twin is preceded by its sibling and in others by the spacer
+				inputs = append(inputs, ta, tb, "SELECT 1 +\n"+ta, tb)
 				ctx.Class("batch-with-same-length-twins")
 			}
 		}
